@@ -143,6 +143,7 @@ TypedArgBase* ArgumentContainer::findArg( const ArgumentKey& key) const
 
 
    TypedArgBase*  part_match = nullptr;
+   bool           multiple_part_matches = false;
 
 
    for (auto const& argi : mArguments)
@@ -153,14 +154,18 @@ TypedArgBase* ArgumentContainer::findArg( const ArgumentKey& key) const
       if (mAbbrAllowed && argi.key().startsWith( key))
       {
          // found a match using the long argument as abbreviation
+         // an exact match may still follow, so don't throw here
          if (part_match == nullptr)
             part_match = argi.data().get();
          else
-            throw runtime_error( "Long argument abbreviation '"
-                                 + format::toString( key)
-                                 + "' matches more than one argument");
+            multiple_part_matches = true;
       } // end if
    } // end for
+
+   if (multiple_part_matches)
+      throw runtime_error( "Long argument abbreviation '"
+                           + format::toString( key)
+                           + "' matches more than one argument");
 
    return part_match;
 } // ArgumentContainer::findArg
